@@ -326,9 +326,28 @@ def gdefScan : List GKind → GTodo → GTodo
       | .other => t
     if !t'.classDefs && !t'.carets then t' else gdefScan l t'
 
+/-- the statements of one top-level statement if it is a `table GDEF` block -/
+def gdefBody (s : Stmt) : List Item :=
+  if isGdefTable s then (match s with | .block _ _ _ _ body => body | _ => []) else []
+
+/-- `[fea for block in feaFile.statements if isinstance(block, ast.TableBlock) and block.name == "GDEF"
+      for fea in block.statements]`: the feature file may define the GDEF table in several blocks -/
+def gdefStatements : File → List Item
+  | [] => []
+  | s :: l => gdefBody s ++ gdefStatements l
+
 /-- GdefFeatureWriter.setContext.  `super().setContext` gives todo = features - existing feature tags; the writer's
-features ("GlyphClassDefs", "LigatureCarets") are no feature tags, so that is all of them (in "append" mode too). -/
+features ("GlyphClassDefs", "LigatureCarets") are no feature tags, so that is all of them (in "append" mode too).
+`ctx.gdefTableBlock` (where `_write` appends) is the FIRST `table GDEF`; the scan ranges over ALL of them. -/
 def gdefTodo (i : GdefIn) (f : File) : GTodo :=
+  let t := match findGdefTable f with                       -- `if ctx.gdefTableBlock:`
+    | some _ => gdefScan ((gdefStatements f).map (itemKind i.kinds)) ⟨true, true⟩
+    | none => ⟨true, true⟩
+  ⟨t.classDefs && i.hasCats, t.carets && i.carets != 0⟩
+
+/-- OLD RULE (ufo2ft before the repair; kept only for the counterexample in Props and the driver's diagnostics):
+the scan looked at the statements of the first `table GDEF` block only -/
+def gdefTodoFirstBlock (i : GdefIn) (f : File) : GTodo :=
   let t := match findGdefTable f with
     | some body => gdefScan (body.map (itemKind i.kinds)) ⟨true, true⟩
     | none => ⟨true, true⟩
@@ -343,6 +362,13 @@ def gdefGenOf (i : GdefIn) (f : File) : List GKind := gdefGen (gdefTodo i f) i.c
 /-- GdefFeatureWriter.write: setContext, shouldContinue (`todo` not empty), `_write` -/
 def gdefStep (i : GdefIn) (f : File) : File :=
   let gen := gdefGenOf i f
+  gdefWrite (!gen.isEmpty) ((List.range gen.length).map (fun k => i.base + 1 + k)) (i.base + 1) f
+
+/-- OLD RULE: the writer with the first-block-only scan (see `gdefTodoFirstBlock`) -/
+def gdefGenOfFirstBlock (i : GdefIn) (f : File) : List GKind := gdefGen (gdefTodoFirstBlock i f) i.carets
+
+def gdefStepFirstBlock (i : GdefIn) (f : File) : File :=
+  let gen := gdefGenOfFirstBlock i f
   gdefWrite (!gen.isEmpty) ((List.range gen.length).map (fun k => i.base + 1 + k)) (i.base + 1) f
 
 inductive Step
